@@ -2,6 +2,7 @@ SPECIFICATION TSpec
 CONSTANTS
   Recorded = TRUE
   Fault = "none"
+  Lims = {}
   Policies = {}
   Ratings = {}
   ConvStarts = {}
